@@ -33,6 +33,7 @@ struct FactorOutcome {
     bool aborted = false; std::string abort_msg;
     long long info = -999;
     uint64_t digest = 0;           // perms, structure and values of L and U, nnz counts
+    int grew = 0;                  // bit 1: L values (LUSUP) grew beyond the initial estimate, 2: U values/indices (UCOL/USUB), 4: L subscripts (LSUB)
     int expansions = -1; long expand_allocs = 0; int glu_exp = 0;   // glu_exp: growth events counted by the library itself, also valid on a failed return
     float for_lu = 0, total_needed = 0;
     long implied_lo = 0, implied_hi = 0;   // byte size of the returned arrays: used part / plus the pointer arrays
@@ -43,21 +44,21 @@ struct FactorOutcome {
     static std::string clean(std::string s) { for (auto &ch : s) if (ch == '|' || ch == '\x1e' || ch == '\x1f') ch = '/'; if (s.size() > 600) s.resize(600); return s; }
     std::string serialize() const {
         return fmt("%d|%lld|%016llx|%d|%ld|%.9g|%.9g|%ld|%ld|%d|%d|%d|%d|%d|%d|", (int)aborted, info, (unsigned long long)digest, expansions, expand_allocs, (double)for_lu, (double)total_needed, implied_lo, implied_hi,
-                   (int)canary_ok, (int)structure_ok, (int)leak, multi, (int)identity_ok, (int)degenerate) + clean(abort_msg) + "|" + clean(canary_msg) + "|" + clean(structure_oracle) + "|" + clean(structure_msg) + "|" + clean(leak_msg) + "|" + clean(identity_oracle) + "|" + clean(identity_msg) + "|";
+                   (int)canary_ok, (int)structure_ok, (int)leak, multi + 1000 * grew, (int)identity_ok, (int)degenerate) + clean(abort_msg) + "|" + clean(canary_msg) + "|" + clean(structure_oracle) + "|" + clean(structure_msg) + "|" + clean(leak_msg) + "|" + clean(identity_oracle) + "|" + clean(identity_msg) + "|";
     }
     bool parse(const std::string &s) {
         std::vector<std::string> f; std::string cur; for (char ch : s) { if (ch == '|') { f.push_back(cur); cur.clear(); } else cur += ch; }
         if (f.size() < 22) return false;
         aborted = atoi(f[0].c_str()); info = atoll(f[1].c_str()); digest = strtoull(f[2].c_str(), nullptr, 16); expansions = atoi(f[3].c_str()); expand_allocs = atol(f[4].c_str());
         for_lu = (float)atof(f[5].c_str()); total_needed = (float)atof(f[6].c_str()); implied_lo = atol(f[7].c_str()); implied_hi = atol(f[8].c_str());
-        canary_ok = atoi(f[9].c_str()); structure_ok = atoi(f[10].c_str()); leak = atoi(f[11].c_str()); multi = atoi(f[12].c_str()); identity_ok = atoi(f[13].c_str()); degenerate = atoi(f[14].c_str());
+        canary_ok = atoi(f[9].c_str()); structure_ok = atoi(f[10].c_str()); leak = atoi(f[11].c_str()); multi = atoi(f[12].c_str()); grew = multi / 1000; multi %= 1000; identity_ok = atoi(f[13].c_str()); degenerate = atoi(f[14].c_str());
         abort_msg = f[15]; canary_msg = f[16]; structure_oracle = f[17]; structure_msg = f[18]; leak_msg = f[19]; identity_oracle = f[20]; identity_msg = f[21];
         return true;
     }
 };
 
 template <class T> struct FactorProblem {
-    int m = 0, n = 0; Comp<T> S; Opts o; bool ilu = false; IluOpts io;
+    int m = 0, n = 0; Comp<T> S; Opts o; bool ilu = false; IluOpts io; bool stress = false;
 };
 
 // Workspace inside a larger buffer: [guard | work (lwork bytes) | guard], guards poisoned for ASan and filled with canaries.
@@ -122,6 +123,8 @@ inline FactorOutcome factor_once(const FactorProblem<T> &P, const StorageCfg &cf
     vf_set_fault(nullptr, 0, 0);
     out.expand_allocs = vf_stats()->expand_allocs;
     if (ab) { out.aborted = true; out.abort_msg = vf_abort_msg(); gw.release(); vf_purge(); return out; }
+    { long init = (long)((double)cfg.fill * (double)P.S.nnz()); if (P.ilu) init = -1;
+      if (init >= 0 && cfg.lwork != -1) out.grew = (Glu.nzlumax > init ? 1 : 0) | (Glu.nzumax > init ? 2 : 0) | (Glu.nzlmax > init ? 4 : 0); }
     out.info = info; out.expansions = stat.expansions; out.glu_exp = Glu.num_expansions > 0 ? Glu.num_expansions - 1 : 0;
     int k = std::min(m, n);
     bool formed = info >= 0 && info <= k && cfg.lwork != -1;
@@ -190,9 +193,26 @@ template <class T> inline FactorProblem<T> gen_factor_problem(Choice &c, Ctx &cx
     P.ilu = allow_ilu && c.chance(70);
     if (P.ilu) m = n;
     std::string family;
-    auto pat = gen_pattern(c, m, n, PAT_NONSING, family);
-    GMat G = gen_values(c, m, n, pat, cplx, single, family);
+    bool stress = !P.ilu && c.chance(64);
+    GMat G;
+    if (stress) {
+        // fill-heavy: a dense leading row and column block with a dominant diagonal, natural ordering, tiny supernodes.  The part of U
+        // outside the supernodes then outgrows a fill estimate of 1..2 times nnz(A), so UCOL/USUB (and LSUB) must grow during
+        // the factorization - something small random matrices almost never do.
+        if (n < 6) n = 6 + (int)c.below(7); m = n;
+        int k = 1 + (int)c.below(2);
+        std::vector<std::vector<int>> pat(n);
+        for (int j = 0; j < n; ++j) for (int i = 0; i < n; ++i) if (i == j || i < k || j < k || (c.chance(24))) pat[j].push_back(i);
+        family = "fill-heavy-arrow";
+        G = gen_values(c, m, n, pat, cplx, single, family, false);
+        for (int j = 0; j < n; ++j) { double s = 1; for (auto &e : G.col[j]) if (e.first != j) s += std::fabs(e.second.re) + std::fabs(e.second.im); for (auto &e : G.col[j]) if (e.first == j) { e.second.re = 4 * s; e.second.im = 0; } }
+        G.vkind += "+dominant";
+    } else {
+        auto pat = gen_pattern(c, m, n, PAT_NONSING, family);
+        G = gen_values(c, m, n, pat, cplx, single, family);
+    }
     P.o = gen_opts(c, n, single, m == n, false); P.o.nr = false;
+    if (stress) { P.o.colperm = NATURAL; P.o.symmetric = false; P.o.tune.stock = false; P.o.tune.v[0] = 0; P.o.tune.v[1] = 1 + (int)c.below(3); P.o.tune.v[2] = 1; P.o.tune.v[3] = 1 + (int)c.below(2); P.o.tune.v[4] = 1 + (int)c.below(4); P.o.tune.v[5] = 1 + (int)c.below(4); P.o.tune.v[6] = 1; P.o.tune.v[7] = 2; cx.label("stress=fill-heavy"); P.stress = true; }
     if (P.ilu) { P.io = gen_ilu_opts(c); route_ilu(P.io, cx); }
     P.m = m; P.n = n;
     P.S = to_comp<T>(G, false, P.o.shuffle_rows ? &c : nullptr);
